@@ -143,7 +143,7 @@ func propAccept(c AcceptCase) (o pbt.Outcome) {
 		o.Failf("start", "valid server configuration did not start: %v", err)
 		return
 	}
-	defer env.Stop()
+	defer env.StopBounded(3 * time.Second)
 	u := c.Users[c.User]
 	hp := refproto.HashedPassword(u.Password, u.Name)
 	now := time.Now()
